@@ -450,4 +450,6 @@ pub fn run(run: &Run) {
     });
     run.extra("targets", json!(ts.iter().map(|t| t.name).collect::<Vec<_>>()));
     run.extra("models_in_schema", json!(MODELS.len()));
+    // thorough: the same quick workload once more under the AddressSanitizer build (memory errors in the library or its dependencies)
+    if !run.quick() { crate::lanes::asan_rerun(run); }
 }
